@@ -1,5 +1,5 @@
 """C18 — The lockfile is reproducible and its hashes are enforced."""
-import os, json, re, random, shutil, hashlib, stat
+import os, json, re, random, shutil, hashlib, stat, tempfile
 from vlib.common import *
 from vlib.common import run as sh
 from vlib import coqrun as cq
@@ -165,9 +165,19 @@ class Trees:
     def __init__(self, ctx, avh):
         self.ctx = ctx; self.avh = avh; self.n = 0
         self.base = new_scratch('C18t')
-    def fresh(self, under=None):
+        # ext4 lists a directory in name-hash order whatever the creation order, so on the regular
+        # scratch area "created in a different order" never changes the walk order.  tmpfs lists in
+        # reverse creation order: when /dev/shm is available the order probe also runs there
+        # (private mkdtemp directory, removed in close()).
+        self.alt = None
+        try:
+            if os.path.isdir('/dev/shm') and os.access('/dev/shm', os.W_OK):
+                self.alt = tempfile.mkdtemp(prefix='verif-C18-', dir='/dev/shm')
+        except OSError:
+            self.alt = None
+    def fresh(self, under=None, alt=False):
         self.n += 1
-        d = os.path.join(self.base, 'r%d' % self.n)
+        d = os.path.join(self.alt if alt and self.alt else self.base, 'r%d' % self.n)
         if under:
             d = os.path.join(d, *under)
             os.makedirs(os.path.dirname(d), exist_ok=True)
@@ -176,16 +186,19 @@ class Trees:
         return d
     def hash(self, root):
         return self.avh.call({'op': 'hash_tree', 'dir': root})
-    def build_hash(self, tree, rng, under=None, empty_dirs=(), keep=False):
-        root = self.fresh(under)
-        order = list(tree.keys()); rng.shuffle(order)
+    def build_hash(self, tree, rng, under=None, empty_dirs=(), keep=False, alt=False, order=None):
+        root = self.fresh(under, alt)
+        if order is None:
+            order = list(tree.keys()); rng.shuffle(order)
         build_tree(root, tree, order, empty_dirs)
         r = self.hash(root)
         if not keep:
-            shutil.rmtree(os.path.join(self.base, 'r%d' % self.n), ignore_errors=True)
+            shutil.rmtree(os.path.join(self.alt if alt and self.alt else self.base, 'r%d' % self.n), ignore_errors=True)
         return root, r
     def close(self):
         rm_scratch(self.base)
+        if self.alt:
+            shutil.rmtree(self.alt, ignore_errors=True)
 
 def tree_case_term(root, isf, tree, obs):
     files = [cfile(p, c) for p, c in tree.items()]
@@ -283,10 +296,17 @@ def run_tree_stream(ctx, nbase):
                 if flavor == 'gitroot':
                     continue      # the absolute-path filter empties the manifest (C18_vcs_root); oracle not applicable
                 # ---- oracle: order independence
-                _, r2 = T.build_hash(tree, rng)
-                if r2.get('ok') != obs:
-                    report(ctx, 'the same tree created in a different order hashes differently',
-                           {**case, 'first': obs, 'second': r2}, cls)
+                order = list(tree.keys()); rng.shuffle(order)
+                variants = [T.build_hash(tree, rng, order=order)[1]]
+                if T.alt:
+                    variants.append(T.build_hash(tree, rng, alt=True, order=order)[1])
+                    variants.append(T.build_hash(tree, rng, alt=True, order=order[::-1])[1])
+                    ctx.count('tree_order', key=json.dumps(spec_of(tree)), nontrivial=len(vis) >= 2, tags=['walk-order:tmpfs-reversed'])
+                for r2 in variants:
+                    if r2.get('ok') != obs:
+                        report(ctx, 'the same tree created in a different order hashes differently',
+                               {**case, 'first': obs, 'second': r2, 'creation_order': [list(p) for p in order]}, cls)
+                        break
                 # ---- oracle: every single-file mutation flips the hash; metadata-only changes do not
                 canon = json.dumps(spec_of(vis))
                 prev = seen.setdefault(obs['sha256'], canon)
